@@ -415,6 +415,7 @@ func runC05(res *Result, d *Driver, tier string, seed uint64) {
 		os.Remove(filepath.Join(sc.dir, "rwdir", "probe_new"))
 		os.WriteFile(filepath.Join(sc.dir, "rwfile"), []byte("content-of-rwfile"), 0666)
 	}
+	c05Planted(res, sc, rng, tier)
 	c05Propagation(res, sc)
 	// a mask that cannot be applied (its parent is a file): the container must not come up half built (root still writable)
 	{
@@ -561,4 +562,144 @@ func c05Propagation(res *Result, sc *c05Scratch) {
 			res.Mismatch(Mismatch{Kind: "oracle", What: "a mount the host makes below a shared bind source after the sandbox was built appears inside it, writable under a read-only bind (C05_namespace: private namespace)", Input: impl + " {bind <shared tmpfs> -> data (ro)}; host mounts tmpfs on <shared>/sub at the sync point", Impl: fmt.Sprintf("%v %s host file created=%v", r.Status, strings.ReplaceAll(strings.TrimSpace(out), "\n", " | "), statErr == nil), Model: "touch /data/sub/x = -30 (EROFS)", Oracle: "violates"})
 		}
 	}
+}
+
+// c05Planted: "for all file-system states a previous program may have left": a table binds a persistent writable
+// host directory and mounts a second entry at a path inside it. Before the sandbox is built that path holds what a
+// previous program could have put there — nothing, a file, a directory, a FIFO, a symbolic link to an absolute host
+// path, a relative or dangling link. Either the sandbox is refused, or the program's namespace has the configured
+// mount at that path with its declared read-only bit and the host object the link names is untouched.
+func c05Planted(res *Result, sc *c05Scratch, rng *Rng, tier string) {
+	p := func(x string) string { return filepath.Join(sc.dir, x) }
+	victim := p("secret/VICTIM")
+	type ent struct {
+		name string
+		e    c05Entry
+	}
+	ents := []ent{
+		{"ro file bind", c05Entry{kind: "b", src: p("rofile"), tgt: "rw/conf/cfg", ro: true, isFile: true}},
+		{"rw file bind", c05Entry{kind: "b", src: p("rwfile"), tgt: "rw/conf/cfg", isFile: true}},
+		{"ro dir bind", c05Entry{kind: "b", src: p("rodir2"), tgt: "rw/conf/cfg", ro: true}},
+		{"tmpfs", c05Entry{kind: "t", tgt: "rw/conf/cfg"}},
+	}
+	plants := []string{"nothing", "file", "dir", "fifo", "link-abs-file", "link-abs-dir", "link-rel", "link-dangling", "parent-link"}
+	for _, impl := range []string{"raw", "container"} {
+		for _, en := range ents {
+			for _, plant := range plants {
+				if tier != "thorough" && !rng.Chance(60) && plant != "link-abs-file" && plant != "link-abs-dir" {
+					continue
+				}
+				os.RemoveAll(p("rwdir/conf"))
+				os.RemoveAll(p("rwdir/elsewhere"))
+				os.MkdirAll(p("rwdir/conf"), 0777)
+				os.WriteFile(victim, []byte("victim"), 0666)
+				os.MkdirAll(p("secret/vdir"), 0777)
+				at := p("rwdir/conf/cfg")
+				switch plant {
+				case "file":
+					os.WriteFile(at, []byte("old"), 0666)
+				case "dir":
+					os.Mkdir(at, 0777)
+				case "fifo":
+					syscall.Mkfifo(at, 0666)
+				case "link-abs-file":
+					os.Symlink(victim, at)
+				case "link-abs-dir":
+					os.Symlink(p("secret/vdir"), at)
+				case "link-rel":
+					os.WriteFile(p("rwdir/conf/other"), []byte("other"), 0666)
+					os.Symlink("other", at)
+				case "link-dangling":
+					os.Symlink("/nonexistent/x", at)
+				case "parent-link":
+					// the directory above the mount point was replaced by a link to a host directory outside the bind
+					os.RemoveAll(p("rwdir/conf"))
+					os.Symlink(p("secret/vdir"), p("rwdir/conf"))
+				}
+				es := []c05Entry{{kind: "b", src: p("rwdir"), tgt: "rw"}, en.e}
+				if impl == "container" {
+					es = append(es, c05Entry{kind: "b", src: "/dev/null", tgt: "dev/null", isFile: true})
+				}
+				key := fmt.Sprintf("planted %s: [bind rwdir->rw, %s at rw/conf/cfg] with %s at the mount point", impl, en.name, plant)
+				script := "writefile /rw/conf/cfg planted-write; touch /rw/conf/cfg/probe_new; exit 0"
+				var info []string
+				sync := func(pid int) error {
+					info, _ = c05MountInfo(pid)
+					return nil
+				}
+				var r runner.Result
+				var out string
+				built := true
+				if impl == "raw" {
+					root, _ := os.MkdirTemp("", "verif-c05-root-")
+					mounts, err := c05Builder(es).Build()
+					if err != nil {
+						fatal("build mounts: %v", err)
+					}
+					r, out = runUnshareProbe(RunSpec{Script: script, SyncFunc: sync, WorkDir: "/"}, root, mounts)
+					os.RemoveAll(root)
+					if r.Status != runner.StatusNormal {
+						built = false
+					}
+				} else {
+					env, err := newEnv(container.Builder{Mounts: c05Builder(es).Mounts, WorkDir: "/"})
+					if err != nil {
+						built = false
+					} else {
+						r, out = env.runProbe(RunSpec{Script: script, SyncFunc: sync}, false)
+						env.Close()
+						if r.Status != runner.StatusNormal {
+							built = false
+						}
+					}
+				}
+				res.Case(key, true, map[bool]string{true: "planted-built", false: "planted-refused"}[built])
+				// the two recorded deviations (KNOWN_FINDINGS.txt): the raw in-child sequence follows any link at or above a
+				// mount point; the in-container sequence checks a file mount point by lstat, but follows a link to a directory
+				// at a directory/tmpfs mount point and a link above any mount point. Everything else is a violation.
+				kf := ""
+				isLink := strings.HasPrefix(plant, "link-") || plant == "parent-link"
+				switch {
+				case impl == "raw" && isLink:
+					kf = "mount-point-link-raw"
+				case impl == "container" && (plant == "parent-link" || (plant == "link-abs-dir" && !en.e.isFile)):
+					kf = "mount-point-link-container"
+				}
+				if b, _ := os.ReadFile(victim); string(b) != "victim" {
+					res.Mismatch(Mismatch{Kind: "oracle", What: "a host file outside every bind source was written through a link planted at a mount point (C05_namespace)", Input: key, Impl: string(b), Oracle: "violates", Key: kf})
+				}
+				if l, _ := os.ReadDir(p("secret/vdir")); len(l) != 0 {
+					res.Mismatch(Mismatch{Kind: "oracle", What: "a host directory outside every bind source received an entry through a link planted at a mount point (C05_namespace)", Input: key, Impl: fmt.Sprint(len(l), " entries"), Oracle: "violates", Key: kf})
+					os.RemoveAll(p("secret/vdir"))
+				}
+				if !built {
+					continue // refused: nothing runs, the property holds
+				}
+				// the sandbox came up: the configured mount must be there, with its read-only bit
+				found := ""
+				for _, ln := range info {
+					f := strings.Split(ln, "|")
+					if len(f) == 3 && f[0] == "/rw/conf/cfg" {
+						found = f[2]
+					}
+				}
+				wantRo := map[bool]string{true: "ro", false: "rw"}[en.e.ro]
+				if found != wantRo {
+					res.Mismatch(Mismatch{Kind: "oracle", What: "the sandbox was built but the configured mount is missing from the program's namespace or has the wrong read-only bit (C05_namespace: exactly the configured entries)", Input: key, Impl: "mountinfo: " + strings.Join(info, ";"), Model: "/rw/conf/cfg mounted " + wantRo, Oracle: "violates", Key: kf})
+				}
+				if en.e.ro {
+					for _, ln := range strings.Split(out, "\n") {
+						if (strings.HasPrefix(ln, "writefile /rw/conf/cfg = ") || strings.HasPrefix(ln, "touch /rw/conf/cfg/probe_new = ")) && !strings.Contains(ln, "= -") {
+							res.Mismatch(Mismatch{Kind: "oracle", What: "a write succeeded at a mount point declared read-only (C05_writable_iff)", Input: key, Impl: ln, Oracle: "violates"})
+						}
+					}
+				}
+			}
+		}
+	}
+	os.RemoveAll(p("rwdir/conf"))
+	os.RemoveAll(p("secret/vdir"))
+	os.Remove(victim)
+	os.WriteFile(p("rofile"), []byte("content-of-rofile"), 0666)
+	os.WriteFile(p("rwfile"), []byte("content-of-rwfile"), 0666)
 }
